@@ -23,6 +23,7 @@ import (
 	"sort"
 	"strings"
 	"sync"
+	"sync/atomic"
 	"testing"
 	"time"
 
@@ -113,7 +114,7 @@ func lockKind(held []string) string {
 }
 
 // runVFSProbeCase runs one stepped history with lock probes after every call.
-func runVFSProbeCase(r *ev.Run, rc *reach, i int) {
+func runVFSProbeCase(r *ev.Run, rc *reach, i int, progress *atomic.Int64) {
 	cfgs := vfsConfigs()
 	cfg := cfgs[i%len(cfgs)]
 	cfg.Shuffle = (i/len(cfgs))%2 == 1
@@ -148,6 +149,7 @@ func runVFSProbeCase(r *ev.Run, rc *reach, i int) {
 		}
 	}
 	x.AfterCall = func(fn, status string) bool {
+		progress.Add(1)
 		held, n := probeVFS(x)
 		probes += n
 		if isErrorStatus(status) {
@@ -260,7 +262,7 @@ func TestCheck(t *testing.T) {
 	// Phase 1: deterministic lock-leak probes.
 	timed(r, "vfs-probe", func() {
 		nVFS := r.Pick(320, 6400)
-		parallel(8, nVFS, func(i int) { runVFSProbeCase(r, rc, i) })
+		guardedCases(r, "vfs-probe-case", nVFS, func(i int, progress *atomic.Int64) { runVFSProbeCase(r, rc, i, progress) })
 	})
 	timed(r, "small-object-probes", func() { runSmallObjectProbes(r, rc) })
 	timed(r, "nfs-probe", func() { runNFSProbes(r, rc) })
@@ -279,12 +281,35 @@ func timed(r *ev.Run, name string, f func()) {
 func replay(r *ev.Run, rc *reach, w witness) {
 	switch w.Phase {
 	case "vfs-probe":
-		runVFSProbeCase(r, rc, w.Case)
+		var progress atomic.Int64
+		runVFSProbeCase(r, rc, w.Case, &progress)
 	default:
 		// Other phases are short and fully determined by the seed.
 		runSmallObjectProbes(r, rc)
 		runNFSProbes(r, rc)
 		runStress(r, rc)
+	}
+}
+
+// guardedCases runs stepped cases on 8 workers. A stepped case is single
+// threaded, but a call can still block for ever inside the code under test
+// (a function that leaves a lock behind and takes it again later in the same
+// call). Every case therefore runs under the hang policy as a round of one
+// worker; after three hangs the remaining cases are skipped.
+func guardedCases(r *ev.Run, name string, n int, f func(i int, progress *atomic.Int64)) {
+	var hangs, skipped atomic.Int64
+	parallel(8, n, func(i int) {
+		if hangs.Load() >= 3 {
+			skipped.Add(1)
+			return
+		}
+		var progress atomic.Int64
+		if runRound(r, name, map[string]any{"case": i}, &progress, []func(){func() { f(i, &progress) }}) != roundFinished {
+			hangs.Add(1)
+		}
+	})
+	if skipped.Load() > 0 {
+		r.Count(name+"s_skipped_after_three_hangs", int(skipped.Load()))
 	}
 }
 
